@@ -59,27 +59,28 @@ type delivery struct {
 }
 
 type liveSim struct {
-	w         *world
-	rng       *rand.Rand
-	now       int64
-	fireAt    map[int]int64
-	queue     []delivery
-	cursor    int
-	seq       int
-	healAt    int64
-	delta     int64
-	prefix    string
-	byzPlan   string
-	byzIdx    int
-	hidden    *lib.QuorumCertificate // a PROPOSE_VOTE certificate only the Byzantine validator holds
-	hiddenRnd uint64
-	leaderOf  map[uint64]map[int]int // round -> honest node -> leader index it voted for
-	inRound   map[uint64]map[int]bool
-	evAt      map[uint64]map[int]int64
-	atHeal    func()
-	notes     []string
-	byzSent   map[string]bool
-	lockedBy  int64
+	w              *world
+	rng            *rand.Rand
+	now            int64
+	fireAt         map[int]int64
+	queue          []delivery
+	cursor         int
+	seq            int
+	healAt         int64
+	delta          int64
+	prefix         string
+	byzPlan        string
+	byzIdx         int
+	hidden         *lib.QuorumCertificate // a PROPOSE_VOTE certificate only the Byzantine validator holds
+	hiddenRnd      uint64
+	leaderOf       map[uint64]map[int]int // round -> honest node -> leader index it voted for
+	inRound        map[uint64]map[int]bool
+	evAt           map[uint64]map[int]int64
+	atHeal         func()
+	notes          []string
+	byzSent        map[string]bool
+	lockedBy       int64
+	newCommitteeAt int64 // locked-new-committee: when the root chain announces a re-ordered committee (0 = never)
 }
 
 func (s *liveSim) note(f string, a ...any) {
@@ -126,7 +127,7 @@ func (s *liveSim) schedule(from int, m *sent) {
 				}
 			case "blackout":
 				continue
-			case "all-locked": // an honest leader's round runs until every replica is locked, then nothing gets through
+			case "all-locked", "locked-new-committee": // an honest leader's round runs until every replica is locked, then nothing gets through
 				if s.now > s.lockedBy {
 					continue
 				}
@@ -286,6 +287,39 @@ func (s *liveSim) byzAct(rnd uint64, rootH uint64) {
 	}
 }
 
+// newCommittee: the root chain moves to the next height with the same validators in another order and with more power for
+// the Byzantine one (honest power stays above 2/3); every replica resets for the new committee and keeps its lock
+func (s *liveSim) newCommittee() {
+	w := s.w
+	w.rootH++
+	cv := &lib.ConsensusValidators{}
+	order := []int{3, 2, 0, 1}
+	for _, i := range order {
+		p := uint64(100)
+		if w.byz[i] {
+			p = 130
+		}
+		cv.ValidatorSet = append(cv.ValidatorSet, &lib.ConsensusValidator{PublicKey: w.keys[i].PublicKey().Bytes(), VotingPower: p})
+	}
+	vs, err := lib.NewValidatorSet(cv)
+	if err != nil {
+		s.note("new committee: %v", err)
+		return
+	}
+	w.vsByRoot[w.rootH] = vs
+	for i, c := range w.nodes {
+		if w.byz[i] {
+			continue
+		}
+		c.rootH = w.rootH
+		c.Lock()
+		c.b.NewHeight(true)
+		c.Unlock()
+		s.fireAt[i] = s.now + 50 + int64(s.rng.Intn(300))
+	}
+	s.note("root height %d: committee re-ordered, replicas reset keeping their locks", w.rootH)
+}
+
 func (s *liveSim) run(maxRoundsAfterHeal uint64) {
 	w := s.w
 	healRound := uint64(0)
@@ -321,6 +355,11 @@ func (s *liveSim) run(maxRoundsAfterHeal uint64) {
 			return
 		}
 		s.now = next
+		if s.newCommitteeAt > 0 && s.now >= s.newCommitteeAt {
+			s.newCommittee()
+			s.newCommitteeAt = 0
+			continue
+		}
 		if !healed && s.now >= s.healAt {
 			healed = true
 			if s.atHeal != nil {
@@ -368,7 +407,7 @@ func liveMode(seed int64, runs int, outPath string) error {
 	rng := rand.New(rand.NewSource(seed))
 	commitTimeoutMS = lib.DefaultConfig().CommitTimeoutMS
 	strictBuildHeight = true
-	prefixes := []string{"none", "skew", "loss", "partition", "blackout", "hidden-qc", "one-locked", "all-locked"}
+	prefixes := []string{"none", "skew", "loss", "partition", "blackout", "hidden-qc", "one-locked", "all-locked", "locked-new-committee"}
 	plans := []string{"silent", "highqc-with-block", "highqc-without-block"}
 	names := []string{"n1", "n2", "n3", "b1"}
 	const maxRounds = 10
@@ -426,10 +465,13 @@ func liveMode(seed int64, runs int, outPath string) error {
 			s.healAt = 0
 		case "hidden-qc", "one-locked": // right after the Byzantine leader's round
 			s.healAt = round0 + 1000
-		case "all-locked":
+		case "all-locked", "locked-new-committee":
 			s.healAt = round0 + 1000
 			for _, p := range []lib.Phase{bft.Election, bft.ElectionVote, bft.Propose, bft.ProposeVote} {
 				s.lockedBy += w.nodes[0].b.WaitTime(p, 0).Milliseconds()
+			}
+			if prefix == "locked-new-committee" {
+				s.newCommitteeAt = round0 + 500
 			}
 			s.lockedBy += 1500 // the leader's PRECOMMIT message has arrived everywhere (skew < 800 ms, delay < 420 ms): every replica locks; the votes are lost
 		default:
